@@ -12,7 +12,7 @@ use serde_json::json;
 use std::collections::{BTreeMap, HashSet};
 use vcore::{Run, Tier, Violation, util};
 use vstore::tamper::{
-    Read, Scenario, Tamper, WRITERS, Writer, apply_tamper, build_scenario, check_content, sites, sizes,
+    Read, Scenario, Tamper, WRITERS, Writer, apply_tamper, build_scenario, check_content, looks_legacy, sites, sizes,
 };
 
 fn scenario_label(sc: &Scenario) -> String {
@@ -60,12 +60,42 @@ fn check_site(sc: &Scenario, baseline_failed: &HashSet<Read>, t: &Tamper, strict
             let alt_out = check_content(&alt, &content, &touched, strict);
             r.rollback_prev = alt_out.wrong.is_empty() && alt_out.original > 0;
         }
-        r.probe_wrong = out.wrong.into_iter().map(|(rd, why)| format!("{}: {why}", rd.kind())).collect();
+        r.probe_wrong = out.wrong.into_iter().map(|(rd, _, why)| format!("{}: {why}", rd.kind())).collect();
         return r;
     }
-    for (rd, why) in out.wrong {
+    // a tampered document that now LOOKS like pre-authentication legacy
+    // metadata (none of an / at / av / g present) is accepted by a default-
+    // mode store by design; name that shape in the signature
+    let legacy_look = !matches!(t, Tamper::Compound { .. })
+        && touched.iter().any(|k| content.get(&format!("meta/{k}")).map(|d| looks_legacy(d)).unwrap_or(false));
+    let compound_legacy = matches!(t, Tamper::Compound { strip, .. } if vstore::tamper::LEGACY_LOOK.iter().all(|f| strip.iter().any(|s| s == f)));
+    for (rd, field, why) in out.wrong {
+        // One root cause, three shapes: a default-mode store accepts a
+        // document without an / at / av / g as legacy metadata (documented
+        // downgrade window, closed by strict mode). Then (1) last_modified
+        // falls back to the backend object's timestamp, (2) size is whatever
+        // the document says, (3) with size 0 and any object at data/<loc> a
+        // full get answers an empty body. Non-empty wrong BYTES would be a
+        // different matter and keep their own signature.
+        let empty_body = field == "size" && matches!(rd, Read::Get { .. }) && why.starts_with("get reports size 0,");
+        let signature = if !strict && (legacy_look || compound_legacy) && field != "bytes" && field != "key" && field != "e_tag" {
+            format!(
+                "C09/tamper/legacy-look-accepted/{}",
+                if field == "last_modified" {
+                    "last_modified"
+                } else if empty_body {
+                    "empty-object"
+                } else {
+                    "size"
+                }
+            )
+        } else {
+            let suffix = if matches!(field, "e_tag" | "last_modified") { format!("/{field}") } else { String::new() };
+            let kind = if legacy_look { format!("{}+legacy-look", t.kind()) } else { t.kind() };
+            format!("C09/tamper/{}/{}{}", kind, rd.kind(), suffix)
+        };
         r.wrong.push(Violation {
-            signature: format!("C09/tamper/{}/{}", t.kind(), rd.kind()),
+            signature,
             summary: format!(
                 "{}{}; tamper {}; read {}: {}",
                 scenario_label(sc),
@@ -99,7 +129,7 @@ fn main() {
         let sc = util::block_on(build_scenario(size, writer));
         println!("replaying {} on {}", serde_json::to_string(&t).unwrap(), scenario_label(&sc));
         let base = baseline(&sc, strict);
-        for (rd, why) in &base.wrong {
+        for (rd, _, why) in &base.wrong {
             println!("  untampered store: {rd:?}: {why}");
         }
         let res = check_site(&sc, &base.failed_reads.iter().cloned().collect(), &t, strict);
@@ -140,7 +170,7 @@ fn main() {
             run.add("evaluations", out.reads);
             run.add("baseline_reads", out.reads);
             run.add("baseline_reads_rejected_invalid_range", out.failed);
-            for (rd, why) in &out.wrong {
+            for (rd, _, why) in &out.wrong {
                 run.violation(Violation {
                     signature: format!("C09/tamper/untampered/{}", rd.kind()),
                     summary: format!("{}; untampered store; read {:?}: {}", scenario_label(sc), rd, why),
@@ -159,7 +189,7 @@ fn main() {
     let mut work: Vec<(usize, Tamper, bool)> = Vec::new();
     for (i, sc) in scenarios.iter().enumerate() {
         for t in sites(sc, &bits) {
-            if matches!(t, Tamper::Cbor { .. }) || t.is_probe() {
+            if matches!(t, Tamper::Cbor { .. } | Tamper::Compound { .. }) || t.is_probe() {
                 work.push((i, t.clone(), true));
             }
             work.push((i, t, false));
@@ -170,6 +200,7 @@ fn main() {
     let mut by_kind: BTreeMap<String, (u64, u64, u64)> = BTreeMap::new(); // sites, detected, silent
     let mut probes: BTreeMap<String, (u64, u64, Option<String>)> = BTreeMap::new();
     let mut soft_kinds: BTreeMap<String, u64> = BTreeMap::new();
+    let mut sig_counts: BTreeMap<String, (u64, String)> = BTreeMap::new();
     let total = work.len();
     let mut done = 0usize;
     let mut rollback_prev = 0u64;
@@ -242,10 +273,19 @@ fn main() {
                 }));
             }
             for v in r.wrong {
+                let e = sig_counts.entry(v.signature.clone()).or_insert((0u64, String::new()));
+                e.0 += 1;
+                if e.1.is_empty() {
+                    e.1 = v.summary.clone();
+                }
                 run.violation(v);
             }
         }
     }
+    run.set(
+        "answers_other_than_original_or_error_by_signature",
+        json!(sig_counts.iter().map(|(k, (n, ex))| (k.clone(), json!({"reads": n, "first": ex}))).collect::<BTreeMap<_, _>>()),
+    );
     run.set(
         "sites_by_kind",
         json!(by_kind.iter().map(|(k, (n, d, s))| (k.clone(), json!({"sites": n, "detected_by_some_read": d, "no_read_changed": s}))).collect::<BTreeMap<_, _>>()),
@@ -264,12 +304,13 @@ fn main() {
         "objects = sizes x writers {put, multipart, copy, rename} at chunk size 16, keys a (two generations), a/b (same size, other bytes), c (copy source); \
          sites = every bit of every byte, every truncation length, 4 extensions of every backend object; every chunk swap; every swap / one-way replacement between payload objects (keys and generations) and between metadata documents; \
          CBOR edits of every metadata document (remove / null each field, strip combinations of an, at, av, g, m, c, zero n / an / at / t[i], remove / swap / append tags, alter s, c, av, m, copy g, e, n, t, m, s, an, at and combinations from another key's document and from the older generation's; CBOR edits are read in default and in strict mode); \
+         compound downgrade family per key: every subset of {av, an, at, g, m} stripped x legacy object data/<key> {absent, this key's ciphertext, another key's} x size {unchanged, every chunk boundary <= len, the other key's length}, default and strict mode; \
          each site alone on a copy of the content, read through a fresh EncryptedStore: get, every GetRange kind at boundaries {0,1,15,16,17,len-1,len,len+1}, get_ranges (1-2 ranges), head, list, list_with_delimiter, list_with_offset (full battery on the keys whose objects were touched, get/head/get_ranges on the others); \
          distinct = (object, site) pairs for which at least one read failed that the untampered store answers",
     );
     run.assume("AES-256-GCM and GMAC are unforgeable (cryptographic strength is not checked)");
     run.assume("nonces, tags and generation salts are random per run (no seam): sites, reads and the verdict are the same every run, the split between failed and original-answer reads moves by a few dozen because a flipped bit in random bytes decodes differently");
     run.assume("a listing that omits an entry (undecodable document, compatibility mode) is a failure to answer, not a wrong answer");
-    run.assume("e_tag / last_modified deviations in head / list answers are counted (soft_meta_field_deviations) but only bytes and sizes are part of the verdict");
+    run.assume("verdict fields: bytes, size, e_tag and last_modified of every answer (get, head, the three listings) must be the committed ones, or the call must fail");
     run.finish();
 }
